@@ -81,6 +81,7 @@ OP = st.one_of(
     fd(op="sp_set", h=H, k=KEYS, v=VALS),
     fd(op="sp_del", h=H, k=KEYS),
     fd(op="sp_nested_set", h=H, k=KEYS, k2=st.sampled_from(["x", "y"]), v=VALS),
+    fd(op="sp_nested_set2", h=H, k=KEYS, k2=st.sampled_from(["x", "y"]), v=VALS, k3=st.sampled_from(["x", "y", "z"]), v3=VALS),
     fd(op="sp_list_append", h=H, k=KEYS, v=st.sampled_from([0, 1.0, "z"])),
     fd(op="sp_list_set", h=H, k=KEYS, v=st.sampled_from([0, 1.0, "z"])),
     fd(op="sp_assign", h=H, sp=sps, via=st.sampled_from(["sp", "statepoint"])),
